@@ -4,7 +4,7 @@
    the whole committee's execution; leader rotation.  The recovery claim from every reachable state
    (first sentence) is kept visible as a statement; it is explored, not proved (DESIGN.md). *)
 From Coq Require Import List NArith ZArith Bool.
-From SSV Require Import Qbft.Model Qbft.Controller Qbft.Liveness Qbft.SyncRound.
+From SSV Require Import Qbft.Model Qbft.Controller Qbft.Liveness Qbft.SyncRound Qbft.SyncGeneric.
 Import ListNotations.
 Local Open Scope N_scope.
 
@@ -67,8 +67,37 @@ Theorem C07_sync_fault_free_bounded : forall n h,
 Proof. exact sync_fault_free_bounded. Qed.
 Print Assumptions C07_sync_fault_free_bounded.
 
-(* The same for arbitrary committees: stated, not proved. *)
+(* The same for arbitrary committees - any distinct non-zero operator ids, any f, any height whose leader
+   computation succeeds (Go int range), any leader start value that passes the value check: *)
 Definition C07_sync_fault_free_statement : Prop := sync_fault_free_statement.
+
+Theorem C07_sync_fault_free : C07_sync_fault_free_statement.
+Proof. exact sync_fault_free_statement_holds. Qed.
+Print Assumptions C07_sync_fault_free.
+
+(* ... and for every quorum between 1 and the committee size, not only 2f+1 of 3f+1 *)
+Theorem C07_sync_fault_free_generic : forall (c : cfg) (h ld : N),
+  NoDup (committee c) -> ~ In 0 (committee c) ->
+  1 <= quorum c -> quorum c <= N.of_nat (length (committee c)) ->
+  proposer c h FIRST_ROUND = Some ld ->
+  value_check c (start_value ld) = true ->
+  forall i, In i (committee c) -> sync_node_ok c h ld i = true.
+Proof. exact sync_fault_free_generic. Qed.
+Print Assumptions C07_sync_fault_free_generic.
+
+(* the hypotheses are satisfiable: the 13-operator committee at height 1000 *)
+Example C07_sync_fault_free_example :
+  let c := sync_cfg 13 in
+  NoDup (committee c) /\ ~ In 0 (committee c) /\ length (committee c) = (3 * 4 + 1)%nat /\
+  quorum c = N.of_nat (2 * 4 + 1) /\ proposer c 1000 FIRST_ROUND = Some 13 /\
+  value_check c (start_value 13) = true.
+Proof.
+  cbv zeta. split; [|split; [|split; [|split; [|split]]]]; try (vm_compute; reflexivity).
+  - vm_compute.
+    repeat (constructor; [intros H; simpl in H; repeat (destruct H as [H|H]; [discriminate H|]); exact H|]).
+    constructor.
+  - vm_compute. intros H. repeat (destruct H as [H|H]; [discriminate H|]). exact H.
+Qed.
 
 (* Recovery from every reachable state within f+3 rounds: stated in DESIGN.md (C07_recovery); it needs
    the system model of Qbft/System.v and is explored by the driver's `recover` mode, not proved. *)
